@@ -527,7 +527,7 @@ pub fn run(ctx: &mut Ctx) -> Result<(), Violation> {
     let mut progs = table_programs();
     let table_n = progs.len();
     if ctx.tier == Tier::Thorough {
-        progs.extend(random_programs(ctx.seed, 600));
+        progs.extend(random_programs(ctx.seed, 2000));
     } else {
         progs.extend(random_programs(ctx.seed, 120));
     }
